@@ -57,6 +57,7 @@ def operations(tier):
         dict(name='cluster-display', text='clu', opts=['-d']),
         dict(name='cluster', text='clu', opts=[]),
         dict(name='other-parameters', text='nterm', opts=[], cfg=(0, 1, 1)),
+        dict(name='other-cutoffs', text='clu2', opts=[], cfg_edit={'desolv_cutoff': '30.0', 'buried_cutoff': '22.0', 'coulomb_cutoff2': '12.0'}),
         dict(name='protonate-all', text='tri', opts=['--protonate-all']),
         dict(name='chain-select', text='pair', opts=['-c', 'A']),
         dict(name='main-two-files', text='tri', opts=[], main=['pair', 'tri']),
@@ -92,6 +93,18 @@ def execute(op, mode='stream'):
         if not os.path.exists(path):
             with open(path, 'w') as fh:
                 fh.write(c02.cfg_variants()[tuple(op['cfg'])])
+        opts += ['-p', path]
+    if 'cfg_edit' in op:
+        path = os.path.abspath('edited_%s.cfg' % op['name'])
+        if not os.path.exists(path):
+            lines = []
+            for ln in c02.cfg_variants()[(1, 0, 0)].splitlines(True):
+                w = ln.split()
+                if w and w[0] in op['cfg_edit']:
+                    ln = '%s %s\n' % (w[0], op['cfg_edit'][w[0]])
+                lines.append(ln)
+            with open(path, 'w') as fh:
+                fh.write(''.join(lines))
         opts += ['-p', path]
     text = T[op['text']]
     if op.get('feed'):
@@ -350,6 +363,11 @@ def run_env_case(case, ctx, acc):
         os.makedirs(wd2)
     else:
         wd2 = wd
+    if case['cwd'] == 'decoy-cfg':   # a different parameter file that merely happens to lie in the working directory
+        with open(os.path.join(wd2, 'propka.cfg'), 'w') as fh:
+            fh.write(c02.cfg_variants()[(1, 0, 0)].replace('model_pkas ASP  3.80', 'model_pkas ASP  4.40').replace('model_pkas GLU  4.50', 'model_pkas GLU  4.10'))
+        with open(os.path.join(wd2, 'x.pdb'), 'w') as fh:
+            fh.write('REMARK decoy file with the name the stream runs pretend to read\n')
     code = ('import sys, json; sys.path.insert(0, %r); from pkmc.checks import c03; from pkmc import pk; pk.quiet(); '
             'obs = c03.execute(c03.operations(%r)[%d], %r); print("@@" + json.dumps(obs, default=str))') % (VERIF, ctx.tier, case['op'], case['mode'])
     p = subprocess.run([sys.executable, '-c', code], cwd=wd2, env=env, capture_output=True, text=True, timeout=300)
@@ -382,6 +400,8 @@ def plan(tier, seed):
         if 'main' not in op:
             envs.append(dict(kind='env', op=i, hashseed=1, cwd='nested', mode='path'))
             envs.append(dict(kind='env', op=i, hashseed=2, cwd='flat', mode='textfile'))
+            if 'cfg' not in op and 'cfg_edit' not in op:
+                envs.append(dict(kind='env', op=i, hashseed=0, cwd='decoy-cfg', mode='stream' if i % 2 else 'path'))
     shards = [[c] for c in orders] + [envs[i:i + 2] for i in range(0, len(envs), 2)]
     return dict(shards=shards, exhaustive=True,
                 rule=('histories: BFS over %d operations (%s) from the pristine process image, state = by-value snapshot of all propka.* '
